@@ -120,7 +120,10 @@ func (d *Digest) Sign(cert *certloader.Certificate) (*binpatch.PatchSet, error) 
 	if err := d.inz.WriteDirectory(&dirEnts, &endOfDir, false); err != nil {
 		return nil, err
 	}
-	patchset.Add(origDirLoc+int64(dirEnts.Len()), int64(endOfDir.Len()), endOfDir.Bytes())
+	// replace the whole tail after the directory entries: the original may have
+	// ZIP64 end records that the new end-of-directory does not repeat
+	endStart := origDirLoc + int64(dirEnts.Len())
+	patchset.Add(endStart, d.inz.Size-endStart, endOfDir.Bytes())
 	return patchset, nil
 }
 
